@@ -90,7 +90,8 @@ for _pn, _pt in _prefixes:
         _name = "pos-%s-%s" % (_pn, _en)
         PROGRAMS.append((_name, _text))
         POS_EXPECT[_name] = (_line, _colm)
-ARGS = ["", "a b", '"q"', "é", "-x", "--out=z", "-", "-e", "-i", "--parse"]
+# every option word of the tool (and the conventional ones it does not have) is an ordinary argument once it follows the program
+ARGS = ["", "a b", '"q"', "é", "-x", "--out=z", "-", "-e", "-i", "--parse", "--", "--help", "-h", "--cli", "--expr", "--color", "--debug", "--out", "=", "--version"]
 
 
 def tb(text):
